@@ -107,22 +107,22 @@ theorem requestCore_ok (p : Plan) : ReqOk (requestCore p) := by
       have hv' : inRanges validStatusRanges (statusCode p.status) = true := by simpa using hv
       have hc := valid_bounds _ hv'
       split
-      · refine ⟨hc, rfl, ?_⟩
-        intro b' i h hi
-        simp at h; subst h
-        exact bodySet_iter_close0 _ _ _ hb hi
       · split
-        · split
-          · exact errorResp_ok {} rfl
-          · rename_i i hi
-            have h0 := bodySet_iter_close0 _ _ _ hb hi
-            have hd := drainAll_close i
-            split
-            · exact errorResp_ok _ (by rw [hd, h0])
-            · refine ⟨hc, by simp only; rw [hd, h0], ?_⟩
-              intro b' i' h hi'
-              simp at h; subst h
-              simp [Body.iter] at hi'; subst hi'; rfl
+        · exact errorResp_ok {} rfl
+        · rename_i i hi
+          have h0 := bodySet_iter_close0 _ _ _ hb hi
+          have hd := drainAll_close i
+          split
+          · exact errorResp_ok _ (by rw [hd, h0])
+          · refine ⟨hc, by simp only; rw [hd, h0], ?_⟩
+            intro b' i' h hi'
+            simp at h; subst h
+            simp [Body.iter] at hi'; subst hi'; rfl
+      · split
+        · refine ⟨hc, rfl, ?_⟩
+          intro b' i h hi
+          simp at h; subst h
+          exact bodySet_iter_close0 _ _ _ hb hi
         · split
           · refine ⟨hc, rfl, ?_⟩
             intro b' i h hi
@@ -475,7 +475,8 @@ theorem srvCloses_dead_same (stream : Bool) : ∀ (n : Nat) (s : Srv), s.live = 
 /-- a plan whose streamed body is the probe iterator object with a callable `close()` -/
 def StreamsCloseable (p : Plan) (c : CloseK) : Prop :=
   p.stream = true ∧ p.head = false ∧ p.body.shape = .iter ∧ p.body.close = c ∧ (c = .ok ∨ c = .raises) ∧
-  inRanges validStatusRanges (statusCode p.status) = true ∧ p.tamperS = .keep ∧ p.tamperH = .none
+  inRanges validStatusRanges (statusCode p.status) = true ∧
+  noBodyFor true (statusCode p.status) = false ∧ p.tamperS = .keep ∧ p.tamperH = .none
 
 theorem keep_not_rejected : StatusT.keep.rejected = false := by decide
 theorem hdrNone_not_rejected : HdrT.none.rejected = false := by decide
@@ -483,7 +484,7 @@ theorem iterator_not_refused : bodyKindsRefused.contains 6 = false := by decide
 
 theorem appCall_streams (p : Plan) (c : CloseK) (h : StreamsCloseable p c) :
     (appCall p).live = true ∧ ∃ i, (appCall p).it = some i ∧ i.kind = .obj c := by
-  obtain ⟨hs, hh, hsh, hc, _, hv, hts, hth⟩ := h
+  obtain ⟨hs, hh, hsh, hc, _, hv, hnb, hts, hth⟩ := h
   have hk : p.body.setKind = 6 := by simp [BodySpec.setKind, hsh]
   have hb : bodySet p.body = some (.it { kind := .obj c, rest := p.body.items, endRaises := p.body.endRaises }) := by
     unfold bodySet
@@ -491,7 +492,8 @@ theorem appCall_streams (p : Plan) (c : CloseK) (h : StreamsCloseable p c) :
     simp [hsh, hc]
   have hr : request p = { code := statusCode p.status, ent := .page (.it { kind := .obj c, rest := p.body.items, endRaises := p.body.endRaises }), tampered := true } := by
     unfold request requestCore
-    simp [hb, hv, hs, hh]
+    rw [hs] at *
+    simp [hb, hv, hh, hnb]
   have h1 : p.tamperS.rejected = false := by rw [hts]; exact keep_not_rejected
   have h2 : p.tamperH.rejected = false := by rw [hth]; exact hdrNone_not_rejected
   unfold appCall
@@ -539,7 +541,7 @@ theorem C01B_streamed_iter_closed_once (chk : Bool) (p : Plan) (c : CloseK) (h :
   exact ⟨(conv_streams_close chk p c h hc).1, (conv_streams_close chk p c h hc).2, C01B_no_escape chk p⟩
 
 example : StreamsCloseable { stream := true, body := { shape := .iter, items := [.bytes, .bytes], close := .raises } } .raises := by
-  refine ⟨rfl, rfl, rfl, rfl, Or.inr rfl, by decide, rfl, rfl⟩
+  refine ⟨rfl, rfl, rfl, rfl, Or.inr rfl, by decide, by decide, rfl, rfl⟩
 
 /-! ### `start_response`: exactly once, a second time only by the trapper with `exc_info` -/
 
@@ -974,17 +976,17 @@ theorem requestCore_plain (p : Plan) (h : PlainItems p) :
     split
     · intro b hb; simp at hb
     · split
-      · rename_i hs
-        intro b hb; simp at hb; subst hb
-        rcases h with ⟨h1, _⟩ | h2
-        · rw [h1] at hs; cases hs
-        · exact bodySet_plain _ _ h2 hbd
       · split
+        · intro b hb; simp [errorResp] at hb
         · split
           · intro b hb; simp [errorResp] at hb
-          · split
-            · intro b hb; simp [errorResp] at hb
-            · intro b hb; simp at hb; subst hb; intro y hy; cases hy
+          · intro b hb; simp at hb; subst hb; intro y hy; cases hy
+      · split
+        · rename_i hs
+          intro b hb; simp at hb; subst hb
+          rcases h with ⟨h1, _⟩ | h2
+          · rw [h1] at hs; cases hs
+          · exact bodySet_plain _ _ h2 hbd
         · split
           · rename_i hcl
             intro b hb; simp at hb; subst hb
